@@ -171,3 +171,224 @@ pub fn judge_bytes(bytes: &[u8]) -> Vec<(String, String)> {
     }
     out
 }
+
+// ------------------------------------------------------------------------------------------------
+// encode side: the fuzzer's bytes are the *tape* the response generators read their choices and
+// values from, so that comparison feedback from inside the crate (`== 1024`, ...) can steer them
+
+pub fn judge_encode(tape: &[u8]) -> Vec<(String, String)> {
+    use crate::resp::{expected_bytes, gen_response, Ctl, KINDS};
+    let mut out = Vec::new();
+    if tape.len() < 4 {
+        return out;
+    }
+    let mut rng = crate::rng::Rng::from_tape(tape);
+    let (kind, _) = KINDS[rng.usize(7)]; // the kinds with members
+    let mask = rng.u64();
+    let mut c = Ctl::new(&mut rng);
+    c.any_alg = true;
+    c.top_mask = Some(mask);
+    c.small = true;
+    let (resp, model) = gen_response(kind, &mut c);
+    let exp = expected_bytes(&model);
+    match crate::mon::c02::serialize(&resp) {
+        Ok(got) => {
+            if got != exp {
+                let (what, detail) = crate::mon::c02::explain(&exp, &got);
+                out.push((format!("C02|{}|{}", kind, what), format!("{}; expected {} got {}", detail, crate::cbor::hex(&exp[..exp.len().min(200)]), crate::cbor::hex(&got[..got.len().min(200)]))));
+            }
+            if got.len() > 1 {
+                if let Err(e) = parse_canonical(&got[1..]) {
+                    out.push((format!("C03|{}|{}", kind, e.rule), format!("not canonical: {} at {}: {}", e.rule, e.offset, crate::cbor::hex(&got[..got.len().min(200)]))));
+                }
+            }
+        }
+        Err(p) => out.push((format!("C02|{}|panic|{}", kind, crate::report::panic_site(&p)), p)),
+    }
+    out
+}
+
+/// round trips of the bidirectional types, canonical bytes generated from the tape (lossless domain)
+pub fn judge_roundtrip(tape: &[u8]) -> Vec<(String, String)> {
+    use crate::mon::c15::{gen_lossless, rt_named, schema_table, Rt};
+    use crate::resp::Ctl;
+    let mut out = Vec::new();
+    if tape.len() < 4 {
+        return out;
+    }
+    let mut rng = crate::rng::Rng::from_tape(tape);
+    let table = schema_table();
+    let which = rng.usize(table.len() + 4);
+    let (name, bytes): (&str, Vec<u8>) = if which < table.len() {
+        let (name, s) = &table[which];
+        let i = rng.below(64);
+        (*name, gen_lossless(s, &mut rng, i, schema::n_optional(s)))
+    } else {
+        let mask = rng.u64();
+        let mut c = Ctl::new(&mut rng);
+        c.top_mask = Some(mask);
+        c.small = true;
+        match which - table.len() {
+            0 => ("get_info::Response", crate::cbor::encode(&crate::resp::gen_get_info(&mut c).1)),
+            1 => ("client_pin::Response", crate::cbor::encode(&crate::resp::gen_client_pin(&mut c).1)),
+            2 => ("large_blobs::Response", crate::cbor::encode(&crate::resp::gen_large_blobs(&mut c).1)),
+            _ => ("CtapOptions", crate::cbor::encode(&crate::resp::gen_ctap_options(&mut c).1)),
+        }
+    };
+    match rt_named(name, &bytes) {
+        Ok(Rt::Done { reencoded, redecoded_equal }) => {
+            if reencoded != bytes {
+                out.push((format!("C15|{}|decode-encode-differs", name), format!("{} -> {}", crate::cbor::hex(&bytes[..bytes.len().min(200)]), crate::cbor::hex(&reencoded[..reencoded.len().min(200)]))));
+            }
+            if redecoded_equal != Ok(true) {
+                out.push((format!("C15|{}|encode-decode-not-equal", name), format!("{:?}", redecoded_equal)));
+            }
+        }
+        Ok(Rt::Rejected(e)) => out.push((format!("C15|{}|canonical-bytes-rejected", name), format!("{} rejected: {}", crate::cbor::hex(&bytes[..bytes.len().min(200)]), e))),
+        Ok(Rt::SerErr(e)) => out.push((format!("C15|{}|serialize-error", name), e)),
+        Err(p) => out.push((format!("C15|{}|panic|{}", name, crate::report::panic_site(&p)), p)),
+    }
+    out
+}
+
+// ------------------------------------------------------------------------------------------------
+// CTAP1 APDUs (C08)
+
+pub fn judge_apdu(apdu: &[u8]) -> Vec<(String, String)> {
+    use crate::mon::c08::{reference, via_command, via_view, Exp, Got};
+    let mut out = Vec::new();
+    // how ISO 7816 frames the bytes is the dependency's business; what CTAP1 makes of the framed
+    // command is judged against the reference decision
+    let view = match iso7816::command::CommandView::try_from(apdu) {
+        Ok(v) => v,
+        Err(_) => return out,
+    };
+    let cla = view.class().into_inner();
+    let ins: u8 = view.instruction().into();
+    let exp = reference(cla, ins, view.p1, view.data());
+    for entry in 0..2 {
+        let got = match crate::report::guard(|| if entry == 0 { via_view(apdu) } else { via_command::<7609>(apdu) }) {
+            Ok(g) => g,
+            Err(p) => {
+                out.push((format!("C08|panic|{}", crate::report::panic_site(&p)), p));
+                continue;
+            }
+        };
+        let data = view.data();
+        let ok = match (&exp, &got) {
+            (_, Got::NotAnApdu) => true,
+            (Exp::Err(a), Got::Err(b)) => a == b,
+            (Exp::Version, Got::Version) => true,
+            (Exp::Register, Got::Register { ch, app, .. }) => ch[..] == data[..32] && app[..] == data[32..64],
+            (Exp::Authenticate(p), Got::Authenticate { cb, ch, app, kh, .. }) => cb == p && ch[..] == data[..32] && app[..] == data[32..64] && kh[..] == data[65..],
+            _ => false,
+        };
+        if !ok {
+            out.push((
+                format!("C08|expected={:?}|entry{}", std::mem::discriminant(&exp), entry),
+                format!("cla={:#04x} ins={:#04x} p1={:#04x} data {} bytes: expected {:?} got {:?}", cla, ins, view.p1, data.len(), exp, got),
+            ));
+        }
+    }
+    out
+}
+
+// ------------------------------------------------------------------------------------------------
+// identifier tables (C18)
+
+pub fn judge_idents(bytes: &[u8]) -> Vec<(String, String)> {
+    use crate::resp::{EXTENSIONS, FORMATS, TRANSPORTS, VERSIONS};
+    use ctap_types::ctap2::{self, get_info};
+    use ctap_types::serde::cbor_deserialize;
+    let mut out = Vec::new();
+    let Ok(s) = std::str::from_utf8(bytes) else { return out };
+    let enc = crate::cbor::encode(&V::text(s));
+    macro_rules! table {
+        ($ty:ty, $table:expr, $name:expr) => {{
+            let listed = $table.iter().find(|(_, t)| *t == s).map(|(v, _)| *v);
+            let got = <$ty>::try_from(s).ok();
+            let dec = cbor_deserialize::<$ty>(&enc).ok();
+            if got != listed || dec != listed {
+                out.push((
+                    format!("C18|{}|{}", $name, if listed.is_some() { "listed-rejected" } else { "accepts-unlisted" }),
+                    format!("{:?}: try_from -> {:?}, decode -> {:?}, table says {:?}", s, got, dec, listed),
+                ));
+            }
+        }};
+    }
+    table!(get_info::Version, VERSIONS, "Version");
+    table!(get_info::Extension, EXTENSIONS, "Extension");
+    table!(get_info::Transport, TRANSPORTS, "Transport");
+    table!(ctap2::AttestationStatementFormat, FORMATS, "AttestationStatementFormat");
+    out
+}
+
+// ------------------------------------------------------------------------------------------------
+// `arbitrary` generators (C19)
+
+#[cfg(feature = "arb")]
+pub fn judge_arb(bytes: &[u8]) -> Vec<(String, String)> {
+    use arbitrary::{Arbitrary, Unstructured};
+    use ctap_types::{authenticator, ctap1, ctap2};
+    let mut out = Vec::new();
+    fn check2(req: &ctap2::Request, out: &mut Vec<(String, String)>) {
+        for (name, b, cap) in crate::project::text_fields(req) {
+            if std::str::from_utf8(&b).is_err() {
+                out.push((format!("C19|ctap2|ill-formed-utf8|{}", name), crate::cbor::hex(&b)));
+            }
+            if b.len() > cap {
+                out.push((format!("C19|ctap2|over-capacity|{}", name), format!("{} > {}", b.len(), cap)));
+            }
+        }
+        let _ = crate::project::p_request(req);
+        let _ = format!("{:?}", req);
+        if req.clone() != *req {
+            out.push(("C19|ctap2|clone-not-equal".into(), String::new()));
+        }
+        let mut m = crate::mock::Mock::default();
+        use ctap_types::ctap2::Authenticator;
+        let _ = m.call_ctap2(req);
+        if m.log.len() != 1 {
+            out.push(("C19|ctap2|dispatch".into(), format!("{:?}", m.log.iter().map(|l| l.0).collect::<Vec<_>>())));
+        }
+    }
+    fn check1(req: &ctap1::Request, out: &mut Vec<(String, String)>) {
+        let _ = format!("{:?}", req);
+        if req.clone() != *req {
+            out.push(("C19|ctap1|clone-not-equal".into(), String::new()));
+        }
+        let mut m = crate::mock::Mock::default();
+        use ctap_types::ctap1::Authenticator;
+        let _ = m.call_ctap1(req);
+    }
+    fn err_ok(which: &str, e: &arbitrary::Error, out: &mut Vec<(String, String)>) {
+        if !matches!(e, arbitrary::Error::NotEnoughData) {
+            out.push((format!("C19|{}|unexpected-error|{:?}", which, e), String::new()));
+        }
+    }
+    macro_rules! run {
+        ($call:expr, $which:expr, $ok:expr) => {{
+            match crate::report::guard(|| $call) {
+                Ok(Ok(req)) => $ok(&req, &mut out),
+                Ok(Err(e)) => err_ok($which, &e, &mut out),
+                Err(p) => out.push((format!("C19|{}|panic|{}", $which, crate::report::panic_site(&p)), p)),
+            }
+        }};
+    }
+    let both = |r: &authenticator::Request, out: &mut Vec<(String, String)>| match r {
+        authenticator::Request::Ctap1(x) => check1(x, out),
+        authenticator::Request::Ctap2(x) => check2(x, out),
+    };
+    run!(ctap2::Request::arbitrary(&mut Unstructured::new(bytes)), "ctap2", check2);
+    run!(ctap2::Request::arbitrary_take_rest(Unstructured::new(bytes)), "ctap2(take_rest)", check2);
+    run!(ctap1::Request::arbitrary(&mut Unstructured::new(bytes)), "ctap1", check1);
+    run!(ctap1::Request::arbitrary_take_rest(Unstructured::new(bytes)), "ctap1(take_rest)", check1);
+    run!(authenticator::Request::arbitrary(&mut Unstructured::new(bytes)), "combined", both);
+    run!(authenticator::Request::arbitrary_take_rest(Unstructured::new(bytes)), "combined(take_rest)", both);
+    out
+}
+
+#[cfg(not(feature = "arb"))]
+pub fn judge_arb(_bytes: &[u8]) -> Vec<(String, String)> {
+    Vec::new()
+}
